@@ -194,23 +194,33 @@ def replay(data):
         inp = {k: float(Fraction(v)) for k, v in r['inputs'].items()}
         from torchsde._brownian import brownian_interval as rbi
         real = rbi._randn
+        levy = r['levy']
+        kw = {}
+        if levy in ('space-time', 'davie', 'foster'): kw['return_U'] = True
+        if levy in ('davie', 'foster'): kw['return_A'] = True
         outs = []
         for bump in (0.0, 1.0):
             def randn(sz, dtype, device, seed, _b=bump):
-                x = real(sz, dtype, device, seed)
-                x = x.clone(); x.reshape(-1)[0] += _b        # perturb noise element 0 only
+                x = real(sz, dtype, device, seed).clone()
+                x.reshape(-1)[0] += _b        # perturb the FIRST noise element of every draw (it belongs to batch row 0)
                 return x
             rbi._randn = randn
             try:
-                bm = torchsde.BrownianInterval(0., 1., size=size, dtype=torch.float64, entropy=1234, levy_area_approximation=r['levy'], cache_size=1)
+                bm = torchsde.BrownianInterval(0., 1., size=size, dtype=torch.float64, entropy=1234, levy_area_approximation=levy, cache_size=1)
                 for k in range(r['nprior']):
                     bm(inp[f'p{k}a'], inp[f'p{k}b'])
-                outs.append(bm(inp['qa'], inp['qb']))
+                o = bm(inp['qa'], inp['qb'], **kw)
+                outs.append(o if isinstance(o, tuple) else (o,))
             finally:
                 rbi._randn = real
-        d = (outs[0] - outs[1]).abs().reshape(-1)
-        print('replay C20 brownian: change per element when noise element 0 is perturbed:', d.tolist())
-        return bool((d[1:] > 1e-12).any())
+        bad = False
+        for nm, a, b in zip('WUA', outs[0], outs[1]):
+            d = (a - b).abs()
+            other_rows = d[1:] if d.dim() >= 2 else d[1:]
+            print(f'replay C20 brownian: {nm}: max change in rows other than row 0 when row-0 noise is perturbed: {float(other_rows.max()) if other_rows.numel() else 0.0}')
+            if other_rows.numel() and float(other_rows.max()) > 1e-12:
+                bad = True
+        return bad
     st, method, nt, opts, d, m, nb = r['task']
     mm = e1.noise_dim(nt, d, m)
     mk = sdes.Maker(symbolic=False, seed=51)
